@@ -98,9 +98,21 @@ macro_rules! chunks_n {
             2 => { let $x = slice::$f::<$t, 2>($s); $body }
             3 => { let $x = slice::$f::<$t, 3>($s); $body }
             4 => { let $x = slice::$f::<$t, 4>($s); $body }
+            5 => { let $x = slice::$f::<$t, 5>($s); $body }
+            6 => { let $x = slice::$f::<$t, 6>($s); $body }
+            7 => { let $x = slice::$f::<$t, 7>($s); $body }
+            8 => { let $x = slice::$f::<$t, 8>($s); $body }
+            10 => { let $x = slice::$f::<$t, 10>($s); $body }
+            12 => { let $x = slice::$f::<$t, 12>($s); $body }
             _ => panic!("unsupported N"),
         }
     };
+}
+
+/// index of the element a reference points at (0 for zero-sized elements, whose addresses all coincide)
+fn elem_index<T>(r: &T, base: *const T) -> V {
+    let sz = std::mem::size_of::<T>();
+    if sz == 0 { json!(0) } else { json!((r as *const T as usize).wrapping_sub(base as usize) / sz) }
 }
 
 fn flat<T, const N: usize>(a: &[[T; N]]) -> &[T] {
@@ -154,13 +166,21 @@ pub fn run_op<T: Elem>(op: &str, len: usize, a: usize, b: usize, mutv: bool) -> 
             ("try_into_array", false) => {
                 macro_rules! tia { ($n:literal) => { match slice::try_into_array::<T, $n>(s) {
                     Ok(r) => json!({"ok": w(&r[..])}), Err(_) => json!({"err": 1}) } } }
-                match a { 1 => tia!(1), 2 => tia!(2), 3 => tia!(3), 4 => tia!(4), _ => panic!("N") }
+                match a { 1 => tia!(1), 2 => tia!(2), 3 => tia!(3), 4 => tia!(4), 5 => tia!(5), 6 => tia!(6), 7 => tia!(7),
+                    8 => tia!(8), 10 => tia!(10), 12 => tia!(12), _ => panic!("N") }
             }
             ("try_into_array", true) => {
                 macro_rules! tia { ($n:literal) => { match slice::try_into_array_mut::<T, $n>(s) {
                     Ok(r) => json!({"ok": w(&r[..])}), Err(_) => json!({"err": 1}) } } }
-                match a { 1 => tia!(1), 2 => tia!(2), 3 => tia!(3), 4 => tia!(4), _ => panic!("N") }
+                match a { 1 => tia!(1), 2 => tia!(2), 3 => tia!(3), 4 => tia!(4), 5 => tia!(5), 6 => tia!(6), 7 => tia!(7),
+                    8 => tia!(8), 10 => tia!(10), 12 => tia!(12), _ => panic!("N") }
             }
+            ("first_mut", _) => opt(slice::first_mut(s), |r| elem_index(r, bp)),
+            ("last_mut", _) => opt(slice::last_mut(s), |r| if std::mem::size_of::<T>() == 0 { json!(bl - 1) } else { elem_index(r, bp) }),
+            ("split_first_mut", _) => opt(slice::split_first_mut(s), |(x, r)| json!([elem_index(x, bp), w(r)])),
+            ("split_last_mut", _) => opt(slice::split_last_mut(s), |(x, r)| {
+                json!([if std::mem::size_of::<T>() == 0 { json!(bl - 1) } else { elem_index(x, bp) }, w(r)])
+            }),
             _ => panic!("unknown SliceIndex op {op}"),
         }))
     })
@@ -189,18 +209,25 @@ fn std_op(op: &str, len: usize, a: usize, b: usize) -> Option<V> {
         "try_into_array" => {
             macro_rules! tia { ($n:literal) => { match <&[u16; $n]>::try_from(s) {
                 Ok(r) => json!({"ok": w(&r[..])}), Err(_) => json!({"err": 1}) } } }
-            match a { 1 => tia!(1), 2 => tia!(2), 3 => tia!(3), 4 => tia!(4), _ => return None }
+            match a { 1 => tia!(1), 2 => tia!(2), 3 => tia!(3), 4 => tia!(4), 5 => tia!(5), 6 => tia!(6), 7 => tia!(7),
+                8 => tia!(8), 10 => tia!(10), 12 => tia!(12), _ => return None }
         }
         "as_chunks" => {
             macro_rules! ac { ($n:literal) => {{ let (x, y) = s.as_chunks::<$n>();
                 json!({"arrs": x.len(), "awin": w(flat(x)), "rem": w(y)}) }} }
-            match a { 1 => ac!(1), 2 => ac!(2), 3 => ac!(3), 4 => ac!(4), _ => return None }
+            match a { 1 => ac!(1), 2 => ac!(2), 3 => ac!(3), 4 => ac!(4), 5 => ac!(5), 6 => ac!(6), 7 => ac!(7),
+                8 => ac!(8), 10 => ac!(10), 12 => ac!(12), _ => return None }
         }
         "as_rchunks" => {
             macro_rules! ac { ($n:literal) => {{ let (x, y) = s.as_rchunks::<$n>();
                 json!({"arrs": y.len(), "awin": w(flat(y)), "rem": w(x)}) }} }
-            match a { 1 => ac!(1), 2 => ac!(2), 3 => ac!(3), 4 => ac!(4), _ => return None }
+            match a { 1 => ac!(1), 2 => ac!(2), 3 => ac!(3), 4 => ac!(4), 5 => ac!(5), 6 => ac!(6), 7 => ac!(7),
+                8 => ac!(8), 10 => ac!(10), 12 => ac!(12), _ => return None }
         }
+        "first_mut" => opt(s.first(), |_| json!(0)),
+        "last_mut" => opt(s.last(), |_| json!(len - 1)),
+        "split_first_mut" => opt(s.split_first(), |(_, r)| json!([0, w(r)])),
+        "split_last_mut" => opt(s.split_last(), |(_, r)| json!([len - 1, w(r)])),
         _ => return None,
     })
 }
@@ -236,7 +263,8 @@ pub fn replay(s: &mut Summary, v: &V) {
 
 /// events {ev, len, a, b, ret} on u16 slices; numbers are real values <= 255 (the trace spec runs W=16)
 pub fn record(rng: &mut SmallRng, n_events: usize, out: &mut dyn Write) {
-    const OPS: [&str; 12] = ["get", "get_from", "get_up_to", "get_range", "slice_from", "slice_up_to",
+    const NS: [usize; 10] = [1, 2, 3, 4, 5, 6, 7, 8, 10, 12];
+    const OPS: [&str; 16] = ["first_mut", "last_mut", "split_first_mut", "split_last_mut", "get", "get_from", "get_up_to", "get_range", "slice_from", "slice_up_to",
         "slice_range", "split_at", "split_at_mut", "as_chunks", "as_rchunks", "try_into_array"];
     for _ in 0..n_events {
         let op = OPS[rng.gen_range(0..OPS.len())];
@@ -251,7 +279,7 @@ pub fn record(rng: &mut SmallRng, n_events: usize, out: &mut dyn Write) {
                 _ => rng.gen_range(0..=300),
             }
         };
-        let (a, b) = if nop { (rng.gen_range(1..=4), 0) } else { (pick(rng), pick(rng)) };
+        let (a, b) = if nop { (NS[rng.gen_range(0..NS.len())], 0) } else if op.ends_with("st_mut") { (0, 0) } else { (pick(rng), pick(rng)) };
         // 16-bit model word -> real usize: values near 2^15 / 2^16 stand for isize::MAX / usize::MAX
         let real = |x: usize| -> usize {
             if nop || x < 20000 { x } else if x <= 32767 { isize::MAX as usize - (32767 - x) }
